@@ -763,8 +763,7 @@ func LastIndex(s, substr string) int {
 	switch {
 	case n == 0:
 		return len(s)
-	// case n == 1 && r != utf8.RuneError:
-	case n == 1:
+	case n == 1 && r != utf8.RuneError:
 		return LastIndexByte(s, substr[0])
 	case n == size:
 		// TODO: indexRabinKarpRevUnicode might be faster here
